@@ -34,27 +34,31 @@ theorem status_decoding_exit (code : Nat) (h : code < 256) : decodeStatus (code 
 structure Hist where
   regs : List Mode
   fe : Option Nat
+  sig : Bool          -- the SIGCHLD handler has run since the first exit
 
 def hstep (c : Nat) (h : Hist) : Op → Hist
   | .exit d st => if d = c then { h with fe := h.fe.or (some st) } else h
   | .reg d m => if d = c then { h with regs := h.regs ++ [m] } else h
-  | _ => h
+  | .sigchld => if h.fe.isSome then { h with sig := true } else h
+  | .drain => h
 
 theorem hist_fold (c : Nat) (ops : List Op) (h : Hist) :
-    ops.foldl (hstep c) h = { regs := h.regs ++ Spec.regsOf c ops, fe := h.fe.or (Spec.firstExit c ops) } := by
+    ops.foldl (hstep c) h = { regs := h.regs ++ Spec.regsOf c ops, fe := h.fe.or (Spec.firstExit c ops),
+                              sig := h.sig || (if h.fe.isSome then ops.any Spec.isSigchld else Spec.sigAfter c ops) } := by
   induction ops generalizing h with
-  | nil => simp [Spec.regsOf, Spec.firstExit]
+  | nil => obtain ⟨r, fe, sg⟩ := h; cases fe <;> simp [Spec.regsOf, Spec.firstExit, Spec.sigAfter]
   | cons op ops ih =>
     simp only [List.foldl_cons, ih]
     cases op with
     | exit d st =>
       by_cases hd : d = c
-      · cases hf : h.fe <;> simp [hstep, hd, Spec.regsOf, Spec.firstExit, hf]
-      · simp [hstep, hd, Spec.regsOf, Spec.firstExit]
+      · cases hf : h.fe <;> simp [hstep, hd, Spec.regsOf, Spec.firstExit, Spec.sigAfter, Spec.isSigchld, hf]
+      · cases hf : h.fe <;> simp [hstep, hd, Spec.regsOf, Spec.firstExit, Spec.sigAfter, Spec.isSigchld, hf]
     | reg d m =>
-      by_cases hd : d = c <;> simp [hstep, hd, Spec.regsOf, Spec.firstExit]
-    | sigchld => simp [hstep, Spec.regsOf, Spec.firstExit]
-    | drain => simp [hstep, Spec.regsOf, Spec.firstExit]
+      by_cases hd : d = c <;> cases hf : h.fe <;>
+        simp [hstep, hd, Spec.regsOf, Spec.firstExit, Spec.sigAfter, Spec.isSigchld, hf]
+    | sigchld => cases hf : h.fe <;> simp [hstep, Spec.regsOf, Spec.firstExit, Spec.sigAfter, Spec.isSigchld, hf]
+    | drain => cases hf : h.fe <;> simp [hstep, Spec.regsOf, Spec.firstExit, Spec.sigAfter, Spec.isSigchld, hf]
 
 def doneCalls (c r st : Nat) : List Call :=
   match decodeStatus st with
@@ -69,12 +73,12 @@ def doneFuts (c r : Nat) (m : Mode) (st : Nat) : List (Nat × Nat × Fut) :=
 /-- what the model may look like for child `c` after a history with registrations `h.regs` and first exit `h.fe` -/
 def Good (c : Nat) (h : Hist) (v : View) : Prop :=
   match h.regs, h.fe with
-  | [], none => v.sub.proc = .running ∧ v.sub.exitCb = none ∧ v.inW = false ∧ v.q = [] ∧ v.calls = [] ∧ v.futs = []
+  | [], none => h.sig = false ∧ v.sub.proc = .running ∧ v.sub.exitCb = none ∧ v.inW = false ∧ v.q = [] ∧ v.calls = [] ∧ v.futs = []
   | [], some st => v.sub.proc = .zombie st ∧ v.sub.exitCb = none ∧ v.inW = false ∧ v.q = [] ∧ v.calls = [] ∧ v.futs = []
-  | [m], none => ∃ r, v.sub.proc = .running ∧ v.sub.exitCb = some (r, m) ∧ v.inW = true ∧ v.init = true ∧
+  | [m], none => ∃ r, h.sig = false ∧ v.sub.proc = .running ∧ v.sub.exitCb = some (r, m) ∧ v.inW = true ∧ v.init = true ∧
       v.q = [] ∧ v.calls = [] ∧ v.futs = []
   | [m], some st => ∃ r,
-      (v.sub.proc = .zombie st ∧ v.sub.exitCb = some (r, m) ∧ v.inW = true ∧ v.init = true ∧
+      (h.sig = false ∧ v.sub.proc = .zombie st ∧ v.sub.exitCb = some (r, m) ∧ v.inW = true ∧ v.init = true ∧
         v.q = [] ∧ v.calls = [] ∧ v.futs = []) ∨
       (v.sub.proc = .reaped ∧ v.sub.exitCb = some (r, m) ∧ v.inW = false ∧ v.q = [st] ∧ v.calls = [] ∧ v.futs = []) ∨
       (v.sub.proc = .reaped ∧ v.inW = false ∧ v.q = [] ∧ v.calls = doneCalls c r st ∧ v.futs = doneFuts c r m st)
@@ -82,7 +86,7 @@ def Good (c : Nat) (h : Hist) (v : View) : Prop :=
 
 theorem good_step (c : Nat) (h : Hist) (v : View) (op : Op) (hg : Good c h v) :
     Good c (hstep c h op) (vstep c v op) := by
-  obtain ⟨regs, fe⟩ := h
+  obtain ⟨regs, fe, sig⟩ := h
   obtain ⟨⟨proc, exitCb, rc⟩, inW, init, q, nregs, calls, futs⟩ := v
   rcases regs with _ | ⟨m, _ | ⟨m2, tl⟩⟩
   · -- not registered yet
@@ -132,7 +136,7 @@ theorem good_step (c : Nat) (h : Hist) (v : View) (op : Op) (hg : Good c h v) :
     cases op with
     | exit d st' => by_cases hd : d = c <;> simp [Good, hstep, hd]
     | reg d m' => by_cases hd : d = c <;> simp [Good, hstep, hd]
-    | sigchld => simp [Good, hstep]
+    | sigchld => cases fe <;> simp [Good, hstep]
     | drain => simp [Good, hstep]
 
 theorem good_run (c : Nat) (ops : List Op) (h : Hist) (v : View) (hg : Good c h v) :
@@ -141,12 +145,12 @@ theorem good_run (c : Nat) (ops : List Op) (h : Hist) (v : View) (hg : Good c h 
   | nil => exact hg
   | cons op ops ih => exact ih _ _ (good_step c h v op hg)
 
-theorem good_init (c : Nat) : Good c { regs := [], fe := none } (view init c) := by
+theorem good_init (c : Nat) : Good c { regs := [], fe := none, sig := false } (view init c) := by
   simp [Good, view, init]
 
 /-- the phase invariant holds after every history -/
 theorem good_after (c : Nat) (ops : List Op) :
-    Good c { regs := Spec.regsOf c ops, fe := Spec.firstExit c ops } (view (run ops) c) := by
+    Good c { regs := Spec.regsOf c ops, fe := Spec.firstExit c ops, sig := Spec.sigAfter c ops } (view (run ops) c) := by
   have := good_run c ops _ _ (good_init c)
   rw [hist_fold] at this
   simpa [run, view_run_gen] using this
@@ -155,7 +159,8 @@ def callsOf (s : St) (c : Nat) : List Call := s.calls.filter (fun k => k.child =
 def futsOf (s : St) (c : Nat) : List (Nat × Nat × Fut) := s.futs.filter (fun f => f.1 == c)
 
 /-- from any phase of a once-registered, exited child: one SIGCHLD handler run and one drain settle everything -/
-theorem settle (c : Nat) (m : Mode) (st : Nat) (v : View) (hg : Good c { regs := [m], fe := some st } v) :
+theorem settle (c : Nat) (m : Mode) (st : Nat) (sig : Bool) (v : View)
+    (hg : Good c { regs := [m], fe := some st, sig := sig } v) :
     ∃ r, (vstep c (vstep c v .sigchld) .drain).calls = doneCalls c r st ∧
          (vstep c (vstep c v .sigchld) .drain).futs = doneFuts c r m st := by
   obtain ⟨⟨proc, exitCb, rc⟩, inW, init, q, nregs, calls, futs⟩ := v
@@ -175,16 +180,68 @@ theorem settle (c : Nat) (m : Mode) (st : Nat) (v : View) (hg : Good c { regs :=
       cases futOf m code <;> rfl
   · simp_all [vstep, vTry, vSet]
 
+/-- … and if the SIGCHLD handler has already run since the exit, one drain is enough -/
+theorem settle_drain (c : Nat) (m : Mode) (st : Nat) (v : View)
+    (hg : Good c { regs := [m], fe := some st, sig := true } v) :
+    ∃ r, (vstep c v .drain).calls = doneCalls c r st ∧ (vstep c v .drain).futs = doneFuts c r m st := by
+  obtain ⟨⟨proc, exitCb, rc⟩, inW, init, q, nregs, calls, futs⟩ := v
+  simp only [Good] at hg
+  obtain ⟨r, hg⟩ := hg
+  refine ⟨r, ?_⟩
+  rcases hg with hg | hg | hg
+  · simp at hg
+  · cases hd : decodeStatus st with
+    | none => simp_all [vstep, vSet, doneCalls, doneFuts]
+    | some code =>
+      simp_all [vstep, vSet, doneCalls, doneFuts]
+      cases futOf m code <;> rfl
+  · simp_all [vstep, vSet]
+
 theorem view_settled (ops : List Op) (c : Nat) :
     view (run (ops ++ [.sigchld, .drain])) c = vstep c (vstep c (view (run ops) c) .sigchld) .drain := by
   simp [run, List.foldl_append, view_step]
 
+theorem view_drained (ops : List Op) (c : Nat) :
+    view (run (ops ++ [.drain])) c = vstep c (view (run ops) c) .drain := by
+  simp [run, List.foldl_append, view_step]
+
+/-- the kernel's guarantee for child `c` in history `ops`: if `c` exits, the SIGCHLD handler runs afterwards -/
+def Delivered (c : Nat) (ops : List Op) : Prop := Spec.firstExit c ops = none ∨ Spec.sigAfter c ops = true
+
 /-- **callback_exactly_once**: take any history `ops` (any number of children, any order of exits, registrations,
 SIGCHLD handler runs — coalesced, spurious, repeated — and loop drains) in which child `c` is registered exactly
-once (mode `m`).  Once the SIGCHLD handler and the loop have run after it, the exit callback of `c` has been called
-exactly as often as the specification says: once with the decoded status of its (first) exit if it has exited, not
-at all otherwise — and `_exit_callback` was already cleared when it ran. -/
-theorem callback_exactly_once (c : Nat) (m : Mode) (ops : List Op) (hreg : Spec.regsOf c ops = [m]) :
+once (mode `m`) and in which the SIGCHLD handler runs at some point after `c`'s exit (before *or* after the
+registration).  After one more loop drain the exit callback of `c` has been called exactly as the specification
+says: once with the decoded status of its (first) exit if it has exited, not at all otherwise — and
+`_exit_callback` was already cleared when it ran. -/
+theorem callback_exactly_once (c : Nat) (m : Mode) (ops : List Op) (hreg : Spec.regsOf c ops = [m])
+    (hdel : Delivered c ops) :
+    (callsOf (run (ops ++ [.drain])) c).map (·.code) = Spec.expect c ops ∧
+    ∀ k ∈ callsOf (run (ops ++ [.drain])) c, k.cleared = true := by
+  have hg := good_after c ops
+  rw [hreg] at hg
+  have hc : callsOf (run (ops ++ [.drain])) c = (view (run (ops ++ [.drain])) c).calls := rfl
+  rw [hc, view_drained]
+  cases hfe : Spec.firstExit c ops with
+  | none =>
+    rw [hfe] at hg
+    have h3 := good_step c _ _ .drain hg
+    simp only [hstep, Good] at h3
+    obtain ⟨r, h3⟩ := h3
+    simp [h3, Spec.expect, hfe]
+  | some st =>
+    have hs : Spec.sigAfter c ops = true := by
+      rcases hdel with h | h
+      · simp [hfe] at h
+      · exact h
+    rw [hfe, hs] at hg
+    obtain ⟨r, h1, -⟩ := settle_drain c m st _ hg
+    rw [h1]
+    simp only [Spec.expect, hfe, ← status_decoding, doneCalls]
+    cases decodeStatus st <;> simp
+
+/-- the same after a final SIGCHLD handler run + drain, with no assumption on earlier deliveries -/
+theorem callback_exactly_once_after_sigchld (c : Nat) (m : Mode) (ops : List Op) (hreg : Spec.regsOf c ops = [m]) :
     (callsOf (run (ops ++ [.sigchld, .drain])) c).map (·.code) = Spec.expect c ops ∧
     ∀ k ∈ callsOf (run (ops ++ [.sigchld, .drain])) c, k.cleared = true := by
   have hg := good_after c ops
@@ -200,7 +257,7 @@ theorem callback_exactly_once (c : Nat) (m : Mode) (ops : List Op) (hreg : Spec.
     simp [h3, Spec.expect, hfe]
   | some st =>
     rw [hfe] at hg
-    obtain ⟨r, h1, -⟩ := settle c m st _ hg
+    obtain ⟨r, h1, -⟩ := settle c m st _ _ hg
     rw [h1]
     simp only [Spec.expect, hfe, ← status_decoding, doneCalls]
     cases decodeStatus st <;> simp
@@ -214,23 +271,27 @@ theorem futOf_eq_spec (m : Mode) (code : Int) : futOf m code = Spec.futOutcome m
 /-- **wait_for_exit_outcome**: under the same conditions, a `wait_for_exit` future of child `c` is settled exactly
 when the child has exited, with the exit code — or with CalledProcessError(code) when `raise_error` and code ≠ 0;
 a plain `set_exit_callback` registration settles no future. -/
-theorem wait_for_exit_outcome (c : Nat) (m : Mode) (ops : List Op) (hreg : Spec.regsOf c ops = [m]) :
-    (futsOf (run (ops ++ [.sigchld, .drain])) c).map (·.2.2)
-      = (Spec.expect c ops).filterMap (Spec.futOutcome m) := by
+theorem wait_for_exit_outcome (c : Nat) (m : Mode) (ops : List Op) (hreg : Spec.regsOf c ops = [m])
+    (hdel : Delivered c ops) :
+    (futsOf (run (ops ++ [.drain])) c).map (·.2.2) = (Spec.expect c ops).filterMap (Spec.futOutcome m) := by
   have hg := good_after c ops
   rw [hreg] at hg
-  have hc : futsOf (run (ops ++ [.sigchld, .drain])) c = (view (run (ops ++ [.sigchld, .drain])) c).futs := rfl
-  rw [hc, view_settled]
+  have hc : futsOf (run (ops ++ [.drain])) c = (view (run (ops ++ [.drain])) c).futs := rfl
+  rw [hc, view_drained]
   cases hfe : Spec.firstExit c ops with
   | none =>
     rw [hfe] at hg
-    have h3 := good_step c _ _ .drain (good_step c _ _ .sigchld hg)
+    have h3 := good_step c _ _ .drain hg
     simp only [hstep, Good] at h3
     obtain ⟨r, h3⟩ := h3
     simp [h3, Spec.expect, hfe]
   | some st =>
-    rw [hfe] at hg
-    obtain ⟨r, -, h2⟩ := settle c m st _ hg
+    have hs : Spec.sigAfter c ops = true := by
+      rcases hdel with h | h
+      · simp [hfe] at h
+      · exact h
+    rw [hfe, hs] at hg
+    obtain ⟨r, -, h2⟩ := settle_drain c m st _ hg
     rw [h2]
     simp only [Spec.expect, hfe, ← status_decoding, doneFuts]
     cases decodeStatus st with
@@ -239,10 +300,13 @@ theorem wait_for_exit_outcome (c : Nat) (m : Mode) (ops : List Op) (hreg : Spec.
       have hf := futOf_eq_spec m code
       cases hfo : futOf m code <;> simp [← hf, hfo]
 
+/-- exit *before* registration, SIGCHLD already consumed before the registration: still reported -/
+example : Delivered 1 [.reg 0 .cb, .exit 1 9, .sigchld, .reg 1 (.wait true), .exit 0 256, .sigchld] := by
+  simp [Delivered, Spec.sigAfter, Spec.isSigchld]
 example : Spec.regsOf 1 [.reg 0 .cb, .exit 1 9, .sigchld, .reg 1 (.wait true), .exit 0 256] = [.wait true] := by decide
-example : (callsOf (run ([.reg 0 .cb, .exit 1 9, .sigchld, .reg 1 (.wait true), .exit 0 256] ++ [.sigchld, .drain])) 1).map (·.code)
+example : (callsOf (run ([.reg 0 .cb, .exit 1 9, .sigchld, .reg 1 (.wait true), .exit 0 256] ++ [.drain])) 1).map (·.code)
     = [-9] := by decide
-example : (futsOf (run ([.reg 0 .cb, .exit 1 9, .sigchld, .reg 1 (.wait true), .exit 0 256] ++ [.sigchld, .drain])) 1).map (·.2.2)
+example : (futsOf (run ([.reg 0 .cb, .exit 1 9, .sigchld, .reg 1 (.wait true), .exit 0 256] ++ [.drain])) 1).map (·.2.2)
     = [.calledProcessError (-9)] := by decide
 
 /-! ### at most once, for every history (re-registrations included) -/
